@@ -480,16 +480,14 @@ func extractCurrentTagName(line string, pos int) string {
 
 	beforeCursor := afterSemicolon[:cursorInComment]
 
-	lastColon := strings.LastIndex(beforeCursor, ":")
-	if lastColon == -1 {
+	// The tag the cursor is in begins after the last comma; its name ends at the FIRST
+	// colon after that (a value may contain colons itself: "time: 10:30").
+	start := strings.LastIndex(beforeCursor, ",") + 1
+	colon := strings.Index(beforeCursor[start:], ":")
+	if colon == -1 {
 		return ""
 	}
-
-	lastComma := strings.LastIndex(beforeCursor[:lastColon], ",")
-	start := lastComma + 1
-	tagName := strings.TrimSpace(beforeCursor[start:lastColon])
-
-	return tagName
+	return strings.TrimSpace(beforeCursor[start : start+colon])
 }
 
 // generateDateCompletionItems creates date suggestions with today/yesterday/tomorrow at top.
